@@ -157,6 +157,7 @@ func main() {
 		fs.Int64Var(&devMaxPaths, "maxpaths", 0, "stop after this many paths (development only; verdict inconclusive)")
 		fs.DurationVar(&devDeadline, "deadline", 0, "stop exploring after this long (verdict inconclusive)")
 		prof := fs.String("cpuprofile", "", "write a CPU profile")
+		fs.StringVar(&symgo.TwinLabel, "twin", "", "reachability twin: treat every assertion with this label as assert(false) (self-test)")
 		fs.Parse(os.Args[2:])
 		profPath = *prof
 		if fs.NArg() < 2 {
@@ -184,6 +185,19 @@ func main() {
 		sort.Strings(ids)
 		for _, id := range ids {
 			fmt.Println(id)
+		}
+	case "labels":
+		// assertion labels a spec requires to be reached (input of tools/twin.sh)
+		if sp, ok := specs[os.Args[2]]; ok {
+			seen := map[string]bool{}
+			for _, r := range sp.Runs {
+				for _, l := range r.Asserts {
+					if !seen[r.Name+l] {
+						seen[r.Name+l] = true
+						fmt.Printf("%s\t%s\n", r.Name, l)
+					}
+				}
+			}
 		}
 	case "selftest":
 		os.Exit(selftest())
